@@ -112,6 +112,7 @@ type logged struct {
 	ctx  context.Context
 	srv  int64
 	hit  bool // answered from the client-side cache
+	prev string // DEL / as.delkey: the string value of the (first) key before the command
 }
 
 type inval struct {
@@ -728,12 +729,23 @@ func (f *fakeServer) exec1(cl *fakeClient, ctx context.Context, cmd []string, ca
 		return record("set", cmd[1:2], cmd[2:], rNil())
 	case "DEL":
 		n := int64(0)
+		prev := ""
+		if len(cmd) > 1 {
+			if v := f.look(cmd[1], now); v != nil {
+				prev = v.s
+			}
+		}
 		for _, k := range cmd[1:] {
 			if f.del(k, now, cl) {
 				n++
 			}
 		}
-		return record("del", cmd[1:], nil, rInt(n))
+		l := logged{cl: cl, name: "del", keys: cmd[1:], rep: rInt(n), ctx: ctx, srv: now, prev: prev}
+		f.log = append(f.log, l)
+		if f.onExec != nil {
+			f.onExec(&l)
+		}
+		return l.rep
 	case "HGETALL":
 		if len(cmd) != 2 {
 			return rErr("ERR wrong number of arguments for 'hgetall' command")
